@@ -48,6 +48,7 @@ MIN_REACH = {
     "crops_without_a_saved_function_reaped_through_bare_handles": {"quick": 6, "thorough": 60},
     "partial_reaps_with_warnings_turned_into_errors": {"quick": 50, "thorough": 800},
     "crops_whose_function_returns_a_plain_dict_of_outputs": {"quick": 2, "thorough": 7},
+    "crops_whose_settings_file_has_the_time_stamp_of_the_earlier_crops": {"quick": 5, "thorough": 50},
 }
 TIME_BUDGET = {"quick": 400, "thorough": 3400}
 CASE_TIMEOUT = {"quick": 300, "thorough": 900}
@@ -184,6 +185,10 @@ def run_case(ctx, case):
                 pk = "str" if not kind.startswith("str") else "tuple:2"
                 pc = xyzpy.Crop(fn=probe.Probe(pk, name="probe"), name=name, parent_dir=tmp, batchsize=1)
                 pc.sow_combos({"a": [1, 2, 3]})
+                if case["idx"] % 2 == 1:
+                    # a file system with coarse time stamps / a directory restored with preserved times: the settings files
+                    # of the earlier and of the later crop carry the SAME modification time
+                    os.utime(os.path.join(cropkit.crop_dir(tmp, name), "xyz-settings.jbdmp"), (1.7e9, 1.7e9))
                 pc.grow(2)
                 pc.reap(allow_incomplete=True)
                 pc.grow_missing()
@@ -217,6 +222,9 @@ def run_case(ctx, case):
             else:
                 crop = xyzpy.Crop(fn=fn, name=name, parent_dir=tmp, **ctor)
             cropkit.sow(crop, w, shuffle_at_sow=shuffle_at_sow)
+            if pc is not None and case["idx"] % 2 == 1:
+                os.utime(os.path.join(cropkit.crop_dir(tmp, name), "xyz-settings.jbdmp"), (1.7e9, 1.7e9))
+                ctx.count("crops_whose_settings_file_has_the_time_stamp_of_the_earlier_crops")
             if nosave:
                 from xyzpy.gen.cropping import grow as _grow
                 for i_ in crop.missing_results():
